@@ -12,8 +12,9 @@ tvars == <<st, cfg, idx, tid, l, verdict, clause>>
 Tr == Traces[tid].ev
 Ev == Tr[l]
 
-(* the logged projection of the durable state after the event *)
-Observed == st' = Ev.d.st /\ cfg' = Ev.d.cfg /\ idx' = Ev.d.idx
+(* the logged projection of the durable state after the event.  Before the state is "ready" no client can observe what an   *)
+(* index file holds (an upload the server could not store may have left an empty one): the index is bound in state 2 only.  *)
+Observed == st' = Ev.d.st /\ cfg' = Ev.d.cfg /\ (Ev.d.st = 2 => idx' = Ev.d.idx)
 
 Act ==
     CASE Ev.e = "connect" -> Connect(Ev.rep)
@@ -22,6 +23,7 @@ Act ==
       [] Ev.e = "search"  -> Search(Ev.out, Ev.res)
       [] Ev.e = "foreign" -> Foreign(Ev.out)
       [] Ev.e = "unknown" -> Unknown(Ev.out)
+      [] Ev.e = "malformed" -> Malformed(Ev.out)
       [] Ev.e = "close"   -> Close
       [] Ev.e = "restart" -> Close
       [] OTHER -> FALSE
